@@ -13,6 +13,9 @@ class MarkerBase(BaseException):
     """a block may also be left by something that is not an Exception (KeyboardInterrupt, SystemExit, a cancellation)"""
 
 
+CTX_ENGINES = {"": b"", "e1": b"\x80\x00\x00\x01\x02ctxengine1"}
+
+
 def mk_creds(name):
     from puresnmp import V1, V2C, V3
     fam, who = name.split(":")
@@ -23,6 +26,10 @@ def kwargs(kv):
     out = {k: v for k, v in kv.items() if k in ("timeout", "retries")}
     if "creds" in kv:
         out["credentials"] = mk_creds(kv["creds"])
+    if "ctx" in kv:
+        from puresnmp.api.raw import Context
+        eng, name = kv["ctx"].split("/")
+        out["context"] = Context(CTX_ENGINES[eng], name.encode())
     return out
 
 
@@ -46,7 +53,9 @@ async def run_history(tree):
                 probes[0] += 1
             wire.append([timeout if timeout is not None else -1, retries if retries is not None else -1])
             if q["engine"] != b"":
-                seen.append(dict(timeout=timeout, retries=retries, version="v3", ident="v3:" + q["user"].decode()))
+                ce = q.get("ctxengine", b"")
+                eng = "" if ce == ag.engine else ([k for k, v in CTX_ENGINES.items() if v == ce] + ["?"])[0]
+                seen.append(dict(timeout=timeout, retries=retries, version="v3", ident="v3:" + q["user"].decode(), ctx=eng + "/" + q.get("ctxname", b"").decode("latin1")))
             return ag.handle(packet)
         q = parse_community(packet)
         wire.append([timeout if timeout is not None else -1, retries if retries is not None else -1])
@@ -67,7 +76,7 @@ async def run_history(tree):
                     ok = True
                 except Exception:  # noqa
                     ok = False
-                obs = seen[-1] if len(seen) > n0 else dict(timeout=-1, retries=-1, version="none", ident="none")
+                obs = dict(dict(ctx="-"), **seen[-1]) if len(seen) > n0 else dict(timeout=-1, retries=-1, version="none", ident="none", ctx="-")
                 # the version is the one the *message layer* spoke; for v1/v2c it is also in ident
                 events.append(dict(e="request", ok=ok and len(seen) > n0, wire=[list(x) for x in wire[w0:]], probes=probes[0] - p0, **obs))
             elif kind == "cfg":
